@@ -18,6 +18,7 @@ CONSTANTS Chunks, Peers,
           Flaky,         \* peers whose session may come and go (send outcome)
           AnnBy,         \* model bound: [Chunks -> SUBSET Peers] providers that announce the chunk
           BadFrom,       \* model bound: chunks for which corrupted arrivals are tried
+          MaxAtt,        \* model bound: a fetch is re-announced only while it has made fewer attempts
           MaxHist,       \* model bound: longest action sequence explored (state constraint of the safety runs)
           ReannounceLeak \* BOOLEAN deviation (historical): a re-announce of an in-flight fetch resets
                          \* in_flight without note_dispatch_end
@@ -105,7 +106,7 @@ Process(pe, cn, r) ==
 
 \* handle_announce (admissible, assigned shards present) -> schedule_assigned_fetch
 Announce(p, c) ==
-    /\ life[c] > 0 /\ p \in AnnBy[c]
+    /\ life[c] > 0 /\ p \in AnnBy[c] /\ (IF pend[c] = None THEN TRUE ELSE pend[c].att < MaxAtt)
     /\ known' = [known EXCEPT ![c] = TRUE]
     /\ IF held[c]
          THEN /\ last' = Quiet /\ UNCHANGED <<pend, cnt, rs, rl, lf>>
@@ -182,6 +183,7 @@ LiveSpec == LInit /\ [][Step(NoLog)]_vars /\ WF_vars(Tick /\ hist' = hist) /\ WF
 Life86 == (1 :> 8) @@ (2 :> 6)
 Life64 == (1 :> 6) @@ (2 :> 4)
 Life9 == (1 :> 9)
+Life6 == (1 :> 6)
 Life53 == (1 :> 5) @@ (2 :> 3)
 AnnAll == [c \in Chunks |-> Peers]
 AnnSkew == (1 :> {1, 2}) @@ (2 :> {1})
